@@ -357,7 +357,7 @@ def r_namespace(c):
             c.ok("R12-NAMESPACE", f"{short(qn)}.map_function_definition",
                  "body-traversed-with-fresh-mapper" if good else "body-not-traversed",
                  where, nontrivial=bool(good))
-    if n < 8:
+    if n < 5:
         raise AnalysisError(f"only {n} map_function_definition handlers found")
     # a mapper whose function handler clones itself must be clonable
     for qn in m.subclasses(MAPPER, strict=True):
@@ -599,8 +599,8 @@ def r_substitutor_duplicates(c):
 SPEC = Spec(
     prop="C12",
     rules=[r_names, r_call_check, r_namespace, r_return, r_inline, r_substitutor_duplicates],
-    floors={"R12-NAMES": 10, "R12-CALL-CHECK": 5, "R12-NAMESPACE": 10, "R12-RETURN": 6,
-            "R12-INLINE": 7},
+    floors={"R12-NAMES": 9, "R12-CALL-CHECK": 3, "R12-NAMESPACE": 10, "R12-RETURN": 4,
+            "R12-INLINE": 5},
     explanation=(
         "R12-NAMES: trace_call is evaluated abstractly with name-origin templates "
         "({#} = position, {KW} = raw keyword): the names of the placeholders "
